@@ -293,6 +293,11 @@ func report(o checkOpts, eng *Engine, x *Explorer, hs []*Harness, seed int64, st
 			fmt.Printf("INCONCLUSIVE harness=%s reason=vacuity: reach points not reached: %s\n", h.name, strings.Join(unreached, ","))
 		}
 		inconclusive += hInc
+		if hInc > 0 {
+			for n, k := range rep.Notes {
+				fmt.Printf("  note harness=%s x%d: %s\n", h.name, k, n)
+			}
+		}
 
 		// violations: confirm, match against known findings
 		for _, v := range rep.Violations {
